@@ -217,7 +217,7 @@ impl Gen {
 pub struct Snap { pub st: IncState, pub bal: BTreeMap<(i64, i64), u128>, pub epoch: u64, pub rewards: BTreeMap<i64, Result<Vec<(i64, u128)>, String>> }
 pub fn snap(w: &IncWorld) -> Snap {
     let mut bal = BTreeMap::new();
-    for a in OBS_ACCOUNTS { for s in ASSETS { bal.insert((a, s), w.bal(a, s)); } }
+    for a in w.obs_accounts() { for s in ASSETS { bal.insert((a, s), w.bal(a, s)); } }
     let mut rewards = BTreeMap::new();
     for u in USER_IDS { rewards.insert(u, w.rewards(u)); }
     Snap { st: w.state(), bal, epoch: w.epoch(), rewards }
@@ -403,8 +403,8 @@ pub fn run_case(out: &mut Out, rng: &mut Rng, cfg: &IncCfg, script: Vec<Op>, gen
     let mut kinds = std::collections::BTreeSet::new();
     let mut pre = snap(&w);
     for _ in 0..total {
-        let op = g.next(rng, &w);
-        let r = w.exec(&op);
+        let mut op = g.next(rng, &w);
+        let r = if matches!(op, Op::HelperDeposit { .. }) { w.exec_helper(&mut op) } else { w.exec(&op) };
         let ok = r.is_ok();
         let post = snap(&w);
         ops.push(op.clone());
